@@ -265,12 +265,27 @@ func (ss *serverSession) request() {
 		ss.sc.serverLog("closed connection: invalid command")
 		return
 	}
+	if _, ok := ss.sc.dbms.(*DbmsUnauth); ok && !unauthCmd(icmd) {
+		// some commands don't go through ss.sc.dbms e.g. Token, Kill
+		panic(notauth)
+	}
 	cmd := cmds[icmd]
 	cmd(ss)
 	assert.That(ss.Remaining() == 0) // should consume entire message
 	if icmd != commands.EndSession {
 		ss.EndMsg()
 	}
+}
+
+// unauthCmd returns true for the commands that are allowed
+// on a connection that has not been authorized (see DbmsUnauth)
+func unauthCmd(icmd commands.Command) bool {
+	switch icmd {
+	case commands.Auth, commands.Nonce, commands.SessionId,
+		commands.LibGet, commands.Libraries, commands.EndSession:
+		return true
+	}
+	return false
 }
 
 func errToStr(e any) string {
